@@ -1,5 +1,5 @@
 """C07 Assembly-level optimisations preserve behaviour — claimed for constant propagation (DESIGN 2/C07)."""
-from units import c07
+from units import c07, c07idx
 
 LEVEL = "proof"
 TRUSTED = ["Kani 0.68 / CBMC 6.11 (+ z3 4.8.12)", "syn-based extractor", "spec/vm_alu.rs (FuelVM ALU oracle transcribed from fuel-vm 0.66.4)",
@@ -9,4 +9,4 @@ EXPLANATION = ""
 
 
 def build(tier):
-    return c07.build(tier)
+    return c07.build(tier) + c07idx.build(tier)
